@@ -100,11 +100,12 @@ def values_path(max_digits):
         vunit_chars = free_case(eng, vunit, "x")
         idc = [PC.free_printable(f"m{i}", exclude=(0x21, 0x28, 0x29, 0x2A, 0x2F)) for i in range(4)]
         clk, fields = clock_digits(eng)
+        clock_addr = ["0-0:1.0.0", "1.0.0", "0:1.0.0", "1-0:1.0.0", "0-0:1.0.0*255"][eng.pick(5)]     # any reduced form of the clock object
         lines = [list(addr.encode()) + [40] + kchars + [42] + unit_chars + [41],
                  [],
                  list(vaddr.encode()) + [40] + vchars + [42] + vunit_chars + [41],
                  list(b"0-0:96.1.0(") + idc + [41],
-                 list(b"0-0:1.0.0(") + clk + list(b"W)")]
+                 list(clock_addr.encode()) + [40] + clk + list(b"W)")]
         content = []
         for ln in lines:
             content += ln + eol
@@ -123,7 +124,7 @@ def values_path(max_digits):
             ctx.violation(f"{type(e).__name__} raised on a well-formed data block: {e}", w)
             return
         ctx.obs = [[d.address, [[v.value, v.unit] for v in d.values]] for d in parsed]
-        expect_sets = [(addr, [(kchars, unit_chars)]), (vaddr, [(vchars, vunit_chars)]), ("0-0:96.1.0", [(idc, None)]), ("0-0:1.0.0", [(clk + [ord("W")], None)])]
+        expect_sets = [(addr, [(kchars, unit_chars)]), (vaddr, [(vchars, vunit_chars)]), ("0-0:96.1.0", [(idc, None)]), (clock_addr, [(clk + [ord("W")], None)])]
         if not check_parsed(ctx, parsed, expect_sets, w, "values"):
             return
         want = {name, vname, "meter_id", "meter_datetime"}
@@ -311,7 +312,7 @@ def scenarios(tier):
     md = 7 if q else 11
     return [Scenario(f"values: kW-family value with i.f digits (i+f <= {md}), free unit case, V-family value, free text, free clock, optional identification line", values_path(md),
                      bounds={"digits": f"integer part 1..6, fraction 0..3, total <= {md}; every digit free", "units": "kW kWh kvar kvarh / V A var varh, each letter free in case", "text": "4 free printable characters",
-                             "clock": "12 free digits forming a valid date-time", "line_ends": "CRLF | LF", "identification": "absent | 3 free letters + free baud digit + 1..3 free characters", "entry points": "parse, decode content, AutoDecoder payload, decode readout, AutoDecoder message"},
+                             "clock": "12 free digits forming a valid date-time, address in any reduced form (0-0:1.0.0 | 1.0.0 | 0:1.0.0 | 1-0:1.0.0 | 0-0:1.0.0*255)", "line_ends": "CRLF | LF", "identification": "absent | 3 free letters + free baud digit + 1..3 free characters", "entry points": "parse, decode content, AutoDecoder payload, decode readout, AutoDecoder message"},
                      domains=("p1", "obis", "decoders"), frontier=3, assumptions=A, replay_cap=200, path_budget=2),
             Scenario("entry points: readout with free identification characters and a free digit through decode_p1_readout / AutoDecoder.decode_message / decode_message_payload", entry_points_path(),
                      bounds={"identification": "3 free flag-id letters, free baud digit, 1..3 free printable id characters", "free": "one value digit"}, domains=("p1", "obis", "decoders"), frontier=4, assumptions=A, replay_cap=80),
